@@ -293,7 +293,7 @@ func (r *c04Run) waitAcked(target int64, d time.Duration) bool {
 }
 
 func runC04(c *vc.Ctx) error {
-	c.Ev.Rule = "instance = 3 vnode processes (real server.Server each) + 4..8 redis clients on 3..6 single-family keys (counter INCR/INCRBY, hash counter HINCRBY, register GETSET/SETNX/DEL, list LPUSH/RPUSH/LPOP/RPOP; unique values; requests to random replicas) + a seeded plan of fault events (kill -9 follower/leader/two in a row, SIGTERM+restart, leader transfer, failpoint sleeps in apply/persist/propose), each injected after a fixed number of further acknowledged writes; after the plan: settle observed (all applied == leader commit twice), final read per key, dump of every replica; oracles: equal dumps, unique-value accounting, porcupine per key with open (unknown-outcome) operations. Plus directed scenarios: node-local pre-check path (lagging follower), and follower-ack durability (third replica down, follower crashed by failpoint between the early-send position and its WAL write at Readys with new entries and unchanged HardState, leader SIGKILLed right after, both restarted, old leader rejoins; judged after all three are settled). non-trivial = instance with >=1 fault event after whose injection >=1 write was acknowledged; fingerprint = engine/options/instance seed/sequence of executed fault kinds"
+	c.Ev.Rule = "instance = 3 vnode processes (real server.Server each) + 4..8 redis clients on 3..6 single-family keys (counter INCR/INCRBY, hash counter HINCRBY, register GETSET/SETNX/DEL, list LPUSH/RPUSH/LPOP/RPOP; unique values; requests to random replicas) + a seeded plan of fault events (kill -9 follower/leader/two in a row, SIGTERM+restart, leader transfer, failpoint sleeps in apply/persist/propose), each injected after a fixed number of further acknowledged writes; after the plan: settle observed (all applied == leader commit twice), final read per key, dump of every replica; oracles: equal dumps, unique-value accounting, porcupine per key with open (unknown-outcome) operations. Plus directed scenarios: node-local pre-check path (lagging follower), proposal timeouts (one follower's raft loop stalled by a failpoint for longer than the 4 s proposal timeout while all clients write through it: the proposals time out for the clients but commit later; then a burst of unique-value writes through the same replica), and follower-ack durability (third replica down, follower crashed by failpoint between the early-send position and its WAL write at Readys with new entries and unchanged HardState, leader SIGKILLed right after, both restarted, old leader rejoins; judged after all three are settled). non-trivial = instance with >=1 fault event after whose injection >=1 write was acknowledged; fingerprint = engine/options/instance seed/sequence of executed fault kinds"
 	c.Ev.Assume("only writes that go through the raft log are in the history; reads during the run are leader-local by design and not checked")
 	c.Ev.Assume("kill -9 keeps the page cache: fsync placement is not decided here")
 	c.Ev.Assume("engines pebble and mem only (rocksdb engine is not runnable in this sandbox)")
@@ -304,7 +304,7 @@ func runC04(c *vc.Ctx) error {
 	}
 	nRandom := c.Pick(3, 40)
 	nDirected := c.Pick(1, 3)
-	par := c.Pick(5, 4)
+	par := c.Pick(6, 4)
 	type job struct{ inst *C04Instance }
 	var jobs []job
 	for i := 0; i < nDirected; i++ {
@@ -317,6 +317,11 @@ func runC04(c *vc.Ctx) error {
 		jobs = append(jobs, job{&C04Instance{Index: 1100 + i, Seed: rng.Int63(), Directed: "follower-ack", Clients: 2, Keys: 3,
 			Opts: ClusterOpts{N: 3, Engine: []string{"mem", "pebble"}[(i+int(c.Seed))%2], SnapCount: 20, SnapCatchup: 5, KeepBackup: 2, ElectionTick: 10,
 				OptimizedFsync: (i+int(c.Seed))%2 == 0}}})
+	}
+	for i := 0; i < c.Pick(1, 4); i++ {
+		rng := c.Rand(int64(4970 + i))
+		jobs = append(jobs, job{&C04Instance{Index: 1200 + i, Seed: rng.Int63(), Directed: "proposal-timeout", Clients: 5, Keys: 3,
+			Opts: ClusterOpts{N: 3, Engine: []string{"pebble", "mem"}[(i+int(c.Seed))%2], SnapCount: 20, SnapCatchup: 5, KeepBackup: 2, ElectionTick: 10}}})
 	}
 	for i := 0; i < nRandom; i++ {
 		inst := genC04Instance(c, i)
@@ -411,6 +416,11 @@ func runC04Instance(c *vc.Ctx, inst *C04Instance, attempt int) (inconclusive str
 	var directedNote string
 	if inst.Directed == "precheck" {
 		directedNote, inconclusive = r.directedPrecheck()
+		if inconclusive != "" {
+			return inconclusive
+		}
+	} else if inst.Directed == "proposal-timeout" {
+		directedNote, inconclusive = r.directedProposalTimeout()
 		if inconclusive != "" {
 			return inconclusive
 		}
@@ -1001,4 +1011,51 @@ func (r *c04Run) directedFollowerAck() (note string, inconclusive string) {
 		r.inst.Plan = append(r.inst.Plan, FaultEvent{Kind: "follower-ack-round", Point: pt, Targets: []uint64{T.ID, F.ID, L.ID}, T0: r.nowMs(), Note: fmt.Sprintf("k=%d", k)})
 	}
 	return fmt.Sprintf("directed follower-ack-durability: %d rounds (third replica down, follower killed by failpoint between early-send position and WAL write at a Ready with new entries and no publish, then leader SIGKILLed, both restarted, old leader rejoins), failpoint fired in %d rounds", rounds, fired), ""
+}
+
+// directedProposalTimeout creates writes that time out on the proposing
+// replica although their proposals commit later, followed by a burst of
+// writes through the same replica: follower X's raft loop is stalled by a
+// failpoint sleep (longer than the 4 s proposal timeout) while every client
+// writes through X; the queued proposals are answered with a timeout (open
+// operations) and are forwarded and committed when the loop resumes. The
+// common oracles then decide whether every operation took effect at most once.
+func (r *c04Run) directedProposalTimeout() (note string, inconclusive string) {
+	cl, w := r.cl, r.w
+	rounds := r.c.Pick(2, 3)
+	w.setTargets(cl.Nodes[0].ID, cl.Nodes[1].ID, cl.Nodes[2].ID)
+	w.start(r.inst.Clients, r.inst.Seed, 9*time.Second)
+	defer w.stopAndWait()
+	timeouts := 0
+	for round := 0; round < rounds; round++ {
+		leader := r.waitLeader(40 * time.Second)
+		if leader < 0 {
+			return "", "proposal-timeout: no leader"
+		}
+		X := cl.Nodes[r.pickByRole("follower", leader)]
+		if !r.waitAcked(atomic.LoadInt64(&w.acked)+50, 60*time.Second) {
+			return "", "proposal-timeout: no progress"
+		}
+		before := r.w.hist.Ops()
+		w.setTargets(X.ID)
+		time.Sleep(50 * time.Millisecond)
+		stall := 4500 + r.rng.Intn(400)
+		pt := []string{"node.raft.beforePersist", "node.raft.beforeAdvance"}[round%2]
+		if err := X.SetFailpoint(pt, fmt.Sprintf("1*sleep(%d)", stall)); err != nil {
+			return "", "proposal-timeout: " + err.Error()
+		}
+		time.Sleep(time.Duration(stall+300) * time.Millisecond)
+		// burst through the same replica (its pooled proposal headers are reused now)
+		if !r.waitAcked(atomic.LoadInt64(&w.acked)+120, 60*time.Second) {
+			return "", "proposal-timeout: no progress through the stalled replica after it resumed"
+		}
+		for _, o := range r.w.hist.Ops()[len(before):] {
+			if o.Status != "ok" && o.Node == X.ID && (strings.Contains(o.Err, "deadline") || strings.Contains(o.Err, "timeout")) {
+				timeouts++
+			}
+		}
+		w.setTargets(cl.Nodes[0].ID, cl.Nodes[1].ID, cl.Nodes[2].ID)
+		r.inst.Plan = append(r.inst.Plan, FaultEvent{Kind: "proposal-timeout-round", Point: pt, Targets: []uint64{X.ID}, T0: r.nowMs(), Note: fmt.Sprintf("stall %d ms", stall)})
+	}
+	return fmt.Sprintf("directed proposal-timeout: %d rounds (follower raft loop stalled > 4 s with all clients writing through it, then burst through the same replica), %d operations answered with a timeout", rounds, timeouts), ""
 }
